@@ -14,6 +14,7 @@ structure C08Split where
   pre : Int
   post : Int
   rel : Bool
+  fmtU : Bool := false
 
 def jPair (a b : Int) : Json := jInts [a, b]
 
@@ -48,7 +49,7 @@ def parseSplit (j : Json) (shape : Int) (occ : Nat) : Except String C08Split := 
     | "truediv" => do pure (SplitOp.uniform (truedivStep shape (← fInt j "n")))
     | "floordiv" => do pure (SplitOp.equal (floordivStep occ (← fInt j "n")))
     | s => throw s!"C08: unknown op {s}"
-  pure { op := o, pre, post, rel }
+  pure { op := o, pre, post, rel, fmtU := fBoolD j "fmtU" false }
 
 /-- the domain of the model / theorems: positive steps, ascending boundaries, positive sizes,
     non-negative halos -/
@@ -67,17 +68,17 @@ def opTag : SplitOp → String
 abbrev SplitF (d : Nat) := T (d + 1) → Option (List (Part (T d)))
 
 def modelF (s : C08Split) (act : Option (Int × Int)) (dflt : Int) (d : Nat) : SplitF d :=
-  splitFiberParts { op := s.op, pre := s.pre, post := s.post, rel := s.rel, act := act } dflt d
+  splitFiberParts { op := s.op, pre := s.pre, post := s.post, rel := s.rel, act := act, fmtU := s.fmtU } dflt d
 
 /-- the declarative result (never raises) -/
 def specF (s : C08Split) (act : Option (Int × Int)) (dflt : Int) (d : Nat) : SplitF d := fun f =>
   let a := effActive act (show List (Int × T d) from f)
-  some (specIter s.op s.pre s.post a.1 a.2 s.rel (present dflt d f))
+  some (specIterOn s.op s.pre s.post a.1 a.2 s.rel (present dflt d f) (presentFmt s.fmtU dflt d a.1 a.2 f))
 
 /-- position-space reading of equal / unequal for halo 0 (`none`: not applicable) -/
 def chunkF (s : C08Split) (act : Option (Int × Int)) (dflt : Int) (d : Nat) : SplitF d := fun f =>
   let a := effActive act (show List (Int × T d) from f)
-  if s.pre = 0 ∧ s.post = 0 then chunkSpec s.op a.1 a.2 s.rel (present dflt d f) else none
+  if s.pre = 0 ∧ s.post = 0 ∧ s.fmtU = false then chunkSpec s.op a.1 a.2 s.rel (present dflt d f) else none
 
 structure Obs where
   tree : Json
@@ -120,11 +121,11 @@ def errJson : Json := Json.mkObj [("err", Json.str "ERR:ValueError")]
 
 /-- number of stored elements of every fiber at depth `k` and whether some presented element exists /
     the active range is non-empty wherever something is presented -/
-def domAt (act : Option (Int × Int)) (dflt : Int) (d : Nat) : (k : Nat) → T (d + 1 + k) → Bool
+def domAt (fmtU : Bool) (act : Option (Int × Int)) (dflt : Int) (d : Nat) : (k : Nat) → T (d + 1 + k) → Bool
   | 0, f =>
     let a := effActive act (show List (Int × T d) from f)
-    decide (a.1 < a.2) || (present dflt d f).isEmpty
-  | k + 1, f => (show List (Int × T (d + 1 + k)) from f).all (fun e => domAt act dflt d k e.2)
+    decide (a.1 < a.2) || (presentFmt fmtU dflt d a.1 a.2 f).isEmpty
+  | k + 1, f => (show List (Int × T (d + 1 + k)) from f).all (fun e => domAt fmtU act dflt d k e.2)
 
 def presentedAt (dflt : Int) (d : Nat) : (k : Nat) → T (d + 1 + k) → Nat
   | 0, f => (present dflt d f).length
@@ -182,11 +183,11 @@ def handleC08 (j : Json) : Except String Verdict := do
     let s ← parseSplit j shape occ
     let a := effActive act (show List (Int × T d) from t)
     -- (`/` and `//` of an empty fiber compute step 0; nothing is iterated then)
-    let pre := wfB (d + 1) t && (s.ok || occ == 0) && domAt act dflt d 0 t
+    let pre := wfB (d + 1) t && (s.ok || occ == 0) && domAt s.fmtU act dflt d 0 t
     match reJ with
     | none =>
       let m := modelF s act dflt d t
-      let tags := branchTags s a (present dflt d t) m
+      let tags := branchTags s a (presentFmt s.fmtU dflt d a.1 a.2 t) m ++ (if s.fmtU then ["fmtU"] else [])
       let chunk := match obsAt act d (chunkF s act dflt d) 0 t with
         | some o => impl == o.toJson false
         | none => true
@@ -194,38 +195,41 @@ def handleC08 (j : Json) : Except String Verdict := do
     | some rj =>
       let s2 ← parseSplit rj 0 0
       let G (F2 : C08Split → Bool) : Part (T d) → Option (List (Part (T d))) := fun p =>
-        if F2 s2 then splitIter s2.op s2.pre s2.post p.lo p.hi s2.rel p.elems
-        else some (specIter s2.op s2.pre s2.post p.lo p.hi s2.rel p.elems)
+        -- the lower fiber is iterated again: occupancy for the boundaries, its rank's format for the filling
+        let occ2 := present dflt d (show T (d + 1) from p.elems)
+        let el2 := presentFmt s2.fmtU dflt d p.lo p.hi (show T (d + 1) from p.elems)
+        if F2 s2 then splitIterOn s2.op s2.pre s2.post p.lo p.hi s2.rel occ2 el2
+        else some (specIterOn s2.op s2.pre s2.post p.lo p.hi s2.rel occ2 el2)
       let m := obsRe act d (modelF s act dflt d) (G (fun _ => true)) t
       let sp := obsRe act d (specF s act dflt d) (G (fun _ => false)) t
       let crashOp := match modelF s act dflt d t with
         | none => ["crash-op:" ++ opTag s.op]
         | some _ => if m.isNone then ["crash-op:" ++ opTag s2.op] else []
-      finish (pre && s2.ok) m sp true (["resplit", opTag s.op ++ ">" ++ opTag s2.op] ++
+      finish (pre && s2.ok) m sp true (["resplit", opTag s.op ++ ">" ++ opTag s2.op] ++ (if s.fmtU then ["fmtU"] else []) ++
         (if s.rel then ["rel-then-resplit"] else []) ++ crashOp)
   | 1 =>
     let t ← fTree j "t" (d + 2)
     let s ← parseSplit j shape 0
-    let pre := wfB (d + 2) t && s.ok && domAt act dflt d 1 t
-    let cfg : SplitCfg := { op := s.op, pre := s.pre, post := s.post, rel := s.rel, act := act }
+    let pre := wfB (d + 2) t && s.ok && domAt s.fmtU act dflt d 1 t
+    let cfg : SplitCfg := { op := s.op, pre := s.pre, post := s.post, rel := s.rel, act := act, fmtU := s.fmtU }
     -- the tree is the model's `splitAt`; the active ranges are read off the same per-fiber splits
     let model := match splitAt cfg dflt d 1 t, obsAt act d (modelF s act dflt d) 1 t with
       | some r, some o => some { o with tree := treeToJson (d + 2 + 1) r }
       | _, _ => none
     finish pre model (obsAt act d (specF s act dflt d) 1 t) true
-      (["depth1", opTag s.op] ++ (if presentedAt dflt d 1 t > 0 then ["some-presented"] else []) ++
+      (["depth1", opTag s.op] ++ (if s.fmtU then ["fmtU"] else []) ++ (if presentedAt dflt d 1 t > 0 then ["some-presented"] else []) ++
         (if model.isNone then ["crash-op:" ++ opTag s.op] else []))
   | 2 =>
     let t ← fTree j "t" (d + 3)
     let s ← parseSplit j shape 0
-    let pre := wfB (d + 3) t && s.ok && domAt act dflt d 2 t
-    let cfg : SplitCfg := { op := s.op, pre := s.pre, post := s.post, rel := s.rel, act := act }
+    let pre := wfB (d + 3) t && s.ok && domAt s.fmtU act dflt d 2 t
+    let cfg : SplitCfg := { op := s.op, pre := s.pre, post := s.post, rel := s.rel, act := act, fmtU := s.fmtU }
     -- the tree is the model's `splitAt`; the active ranges are read off the same per-fiber splits
     let model := match splitAt cfg dflt d 2 t, obsAt act d (modelF s act dflt d) 2 t with
       | some r, some o => some { o with tree := treeToJson (d + 2 + 2) r }
       | _, _ => none
     finish pre model (obsAt act d (specF s act dflt d) 2 t) true
-      (["depth2", opTag s.op] ++ (if presentedAt dflt d 2 t > 0 then ["some-presented"] else []) ++
+      (["depth2", opTag s.op] ++ (if s.fmtU then ["fmtU"] else []) ++ (if presentedAt dflt d 2 t > 0 then ["some-presented"] else []) ++
         (if model.isNone then ["crash-op:" ++ opTag s.op] else []))
   | _ => throw "C08: split depth > 2 not supported by the driver"
 
